@@ -3,6 +3,7 @@ loaded contexts after every reload.  stdin JSON {"cases": [...]} -> 'RESULT <jso
 
 Ids <-> strings (must agree with coq/Life/ReloadBase.v): 0 __init__, 1 apps, 2 file, 3 modules, 4 scripts,
 10..999 -> "xNNN", >= 1000 -> "#" + name(id - 1000)."""
+import contextlib
 import json
 import os
 import sys
@@ -69,6 +70,10 @@ def source(info):
         "def pv_ping_f(**kw):",
         "    global pv_cnt",
         "    pv_cnt += 1",
+        '    event.fire("pv_pong", gen=%d)' % info["gen"],
+        "@service",
+        "def pvs%d():" % info["gen"],
+        "    pass",
     ]
     for k, (kind, m) in enumerate(info["imps"]):
         dotted = ".".join(seg_name(x) for x in m)
@@ -95,7 +100,28 @@ class Env(PyscriptEnv):
         super().write(rel, text, mtime)
 
 
-def apply_tree(env, old, new):
+def apply_ghosts(env, old, new):
+    """Entries that match the globs but are not readable files: dangling symbolic links, directories named *.py."""
+    oldk = {(g[0], g[1]) for g in old}
+    newk = {(g[0], g[1]) for g in new}
+    for pid, kind in oldk - newk:
+        p = env.path(rel_of(pid))
+        if kind == "dir":
+            with contextlib.suppress(OSError):
+                os.rmdir(p)
+        else:
+            with contextlib.suppress(OSError):
+                os.unlink(p)
+    for pid, kind in newk - oldk:
+        p = env.path(rel_of(pid))
+        os.makedirs(os.path.dirname(p), exist_ok=True)
+        if kind == "dir":
+            os.makedirs(p, exist_ok=True)
+        else:
+            os.symlink(os.path.join(os.path.dirname(p), "pv_no_such_target"), p)
+
+
+def apply_tree(env, old, new, keep=()):
     """Bring the files on disk from `old` to `new` (dicts pid -> info) with real writes, utimes, renames and removals."""
     old_by_gen = {info["gen"]: pid for pid, info in old.items()}
     moved_from = set()
@@ -120,7 +146,7 @@ def apply_tree(env, old, new):
     # drop directories that became empty
     root = env.path("")
     for d, _dirs, _files in os.walk(root, topdown=False):
-        if d.rstrip("/") != root.rstrip("/") and not os.listdir(d):
+        if d.rstrip("/") != root.rstrip("/") and d not in keep and not os.listdir(d):
             os.rmdir(d)
 
 
@@ -153,32 +179,50 @@ async def take(env, step):
     env.events.clear()
     env.hass.bus.async_fire("pv_ping")
     await env.settle()
+    pongs = sorted(d["gen"] for (_t, typ, d) in env.events if typ == "pv_pong")
     env.events.clear()
-    return {"events": events, "ctxs": snapshot(step)}
+    srv = sorted(int(n[3:]) for n in env.hass.services.async_services().get("pyscript", {}) if n.startswith("pvs") and n[3:].isdigit())
+    return {"events": events, "ctxs": snapshot(step), "srv": srv, "pongs": pongs}
 
 
 async def scenario(case):
     steps = case["steps"]
     first = steps[0]
+    o0 = first.get("opts", 0)
     env = Env(files={rel_of(pid): source(info) for pid, info in first["files"].items()}, legacy=bool(case.get("legacy")),
-              apps_config=apps_conf(first["cfg"]))
+              apps_config=apps_conf(first["cfg"]), hass_is_global=bool(o0 & 1), allow_all_imports=not (o0 & 2))
     env.mtimes = {rel_of(pid): info["mtime"] for pid, info in first["files"].items()}
     obs = []
     async with env:
+        # (ghost entries of the first tree are created before the first reload, not before start-up: PyscriptEnv writes
+        #  the initial files itself; generated histories start without ghosts)
         obs.append(await take(env, 0))
-        cur = first["files"]
+        cur, curg = first["files"], []
         for i, st in enumerate(steps[1:], 1):
-            apply_tree(env, cur, st["files"])
-            cur = st["files"]
+            newg = st.get("ghosts", [])
+            apply_ghosts(env, [g for g in curg if tuple(g) not in {tuple(x) for x in newg}], [])
+            apply_tree(env, cur, st["files"], keep={env.path(rel_of(g[0])) for g in newg if g[1] == "dir"})
+            apply_ghosts(env, [g for g in curg if tuple(g) in {tuple(x) for x in newg}], newg)
+            cur, curg = st["files"], newg
             env.conf["apps"] = apps_conf(st["cfg"])
+            oi = st.get("opts", 0)
+            env.conf["hass_is_global"] = bool(oi & 1)
+            env.conf["allow_all_imports"] = not (oi & 2)
             arg = st["arg"]
-            if arg is None:
-                await env.reload()
-            elif arg == "*":
-                await env.reload("*")
-            else:
-                await env.reload(".".join(seg_name(x) for x in arg))
-            obs.append(await take(env, i))
+            err = None
+            try:
+                if arg is None:
+                    await env.reload()
+                elif arg == "*":
+                    await env.reload("*")
+                else:
+                    await env.reload(".".join(seg_name(x) for x in arg))
+            except Exception as exc:  # pylint: disable=broad-except
+                err = f"{type(exc).__name__}: {exc}"[:200]
+            o = await take(env, i)
+            if err:
+                o["reload_error"] = err
+            obs.append(o)
         errs = [m for (_n, lvl, m) in env.log.records if lvl == "ERROR"]
     return {"steps": obs, "errors": errs[:6]}
 
